@@ -4,6 +4,7 @@ pub mod engine;
 pub mod entry;
 pub mod evidence;
 pub mod explore;
+pub mod history;
 pub mod invariance;
 pub mod messages;
 pub mod oracles;
